@@ -189,11 +189,12 @@ func c09Hygiene(c *core.Case, ms *mesh, fl *vnet.InFlight, an *meshAnnouncement,
 // c09Walk follows the forward labels of a route from node i.
 func c09Walk(c *core.Case, ms *mesh, i, j int, rte *m.RoutingTableEntry) {
 	hops := rte.Path.Hops
-	if len(hops) == 0 {
-		if rte.Source != m.RouteSourcePeer || !ms.topo.hasEdge(i, j) || rte.NextHop != ms.nodes[j].IP() {
-			c.Fatalf("route n%d->n%d has no path and is not a direct peer route", i, j)
-		}
-		return
+	if len(hops) < 2 {
+		// The entry a new link puts into the table (peer, next hop, no labels) is
+		// replaced by the neighbour's announcement; once every router has
+		// announced and the net has drained, a route without forward labels leads
+		// nowhere when followed.
+		c.Fatalf("route n%d->n%d (source %s, next hop %s) has no forward labels to follow", i, j, rte.Source, rte.NextHop)
 	}
 	if hops[0].Router != ms.nodes[i].IP() {
 		c.Fatalf("route n%d->n%d does not start at its own router", i, j)
